@@ -1,5 +1,5 @@
-"""C09 - Smith normal form: structural clauses (E6 mirroring, E2 exact division). Diagonal form / divisibility NOT decided."""
-import e6_mirror, e2_float
+"""C09 - Smith normal form: structural clauses (E6 mirroring, E2 exact division, E21 divisibility chain as loop exit condition)."""
+import e6_mirror, e2_float, e21_snfscan
 
 LEVEL = 'other'
 EXPLANATION = ('Static analysis of yui_matrix::dense::snf on MIR: (M2) path summaries of the six wrappers prove that every row/column '
@@ -7,9 +7,10 @@ EXPLANATION = ('Static analysis of yui_matrix::dense::snf on MIR: (M2) path summ
                'operation resp. its inverse (indices equal, scalar inverted/negated, 2x2 block [d,-c,-b,a]); (M1) nothing else mutates '
                'the working matrix, and it is replaced wholesale only together with P, P^-1 by the LLL preprocessing; (M3) '
                'preprocess < eliminate_all < diag_normalize; (M4) every caller passes a Bezout block of determinant 1; (E2) no float '
-               'on any data/control path of the module (its exact divisions x/d reach QuadInt::div -> div_round). These are necessary '
-               'for D = P*A*Q, P*P^-1 = I, Q*Q^-1 = I for every input and flag subset. NOT decided: that the result is diagonal, the '
-               'divisibility chain, agreement with minors, termination.')
+               'on any data/control path of the module (its exact divisions x/d reach QuadInt::div -> div_round). (E21) the divisibility chain is the exit condition of diag_normalize: a step answers true only after d[i] | d[i+1] was tested on an unmodified '
+               'diagonal, a false answer restarts the scan from 0, the scan covers all pairs of the non-zero prefix. These are necessary '
+               'for D = P*A*Q, P*P^-1 = I, Q*Q^-1 = I and d[i] | d[i+1] for every input and flag subset. NOT decided: that the result is diagonal, '
+               'agreement with minors, termination.')
 TRUSTED = ['rustc MIR', 'Mat::{swap,mul,add,elementary} implement the named elementary operations (conventions as documented)',
            'EucRing::gcdx returns Bezout coefficients (C15 decides only its normalisation)']
 
@@ -26,3 +27,5 @@ def run(ctx, rep):
     rep.rule('E2', e2_float.__doc__.strip().split('\n')[0])
     e6_mirror.run_snf(facts, rep)
     e2_float.apply(facts, rep, scope, 'C09', floor_scope=25)
+    rep.rule('E21', e21_snfscan.__doc__.strip().split('\n')[0])
+    e21_snfscan.run(facts, rep)
